@@ -15,12 +15,24 @@ VERIF = os.path.dirname(os.path.dirname(os.path.abspath(__file__)))
 PINNED = os.path.join(VERIF, "spec", "pinned_functions.txt")
 
 
-def pinned_functions():
+def pinned_table():
+    """qualified function name -> set of local names it bound on the pinned tree"""
     try:
+        out = {}
         with open(PINNED) as f:
-            return {l.strip() for l in f if l.strip() and not l.startswith("#")}
+            for l in f:
+                if not l.strip() or l.startswith("#"):
+                    continue
+                q, _, rest = l.rstrip("\n").partition("\t")
+                out[q.strip()] = set(rest.split())
+        return out
     except OSError:
         return None
+
+
+def pinned_functions():
+    t = pinned_table()
+    return None if t is None else set(t)
 
 
 def function_table(tree):
@@ -557,6 +569,118 @@ def unroll_constant_loops(tree):
     return u.count
 
 
+class _AttrFold(ast.NodeTransformer):
+    """getattr(x, "name") -> x.name ; setattr(x, "name", v) as a statement -> x.name = v   (constant attribute names only)"""
+
+    def __init__(self):
+        self.count = 0
+
+    @staticmethod
+    def _ident(node):
+        return isinstance(node, ast.Constant) and isinstance(node.value, str) and node.value.isidentifier()
+
+    def visit_Call(self, node):
+        self.generic_visit(node)
+        if isinstance(node.func, ast.Name) and node.func.id == "getattr" and len(node.args) == 2 and not node.keywords and self._ident(node.args[1]) and _pure(node.args[0]):
+            self.count += 1
+            return ast.copy_location(ast.Attribute(value=node.args[0], attr=node.args[1].value, ctx=ast.Load()), node)
+        return node
+
+    def visit_Expr(self, node):
+        self.generic_visit(node)
+        c = node.value
+        if isinstance(c, ast.Call) and isinstance(c.func, ast.Name) and c.func.id == "setattr" and len(c.args) == 3 and not c.keywords and self._ident(c.args[1]) and _pure(c.args[0]):
+            self.count += 1
+            return ast.copy_location(ast.Assign(targets=[ast.Attribute(value=c.args[0], attr=c.args[1].value, ctx=ast.Store())], value=c.args[2], lineno=node.lineno), node)
+        return node
+
+
+def _side_effect_free(expr):
+    for n in ast.walk(expr):
+        if isinstance(n, (ast.Call, ast.Await, ast.Yield, ast.YieldFrom, ast.NamedExpr, ast.Lambda, ast.ListComp, ast.SetComp, ast.DictComp, ast.GeneratorExp)):
+            return False
+    return True
+
+
+def inline_new_temporaries(tree, table):
+    """Forward-substitute explanatory temporaries that did not exist on the pinned tree: a local bound once to a call-free
+    expression, used exactly once, later in the same statement list (or a statement nested in it), with none of the names it reads
+    re-bound in between.  This is copy propagation; it undoes `introduce explanatory variable`."""
+    funcs, _ = function_table(tree)
+    count = 0
+    for q, fn in funcs.items():
+        known = table.get(q)
+        if known is None:
+            continue  # a new function: nothing to compare with
+        stores = {}
+        loads = {}
+        for n in ast.walk(fn):
+            if isinstance(n, ast.Name):
+                (stores if isinstance(n.ctx, ast.Store) else loads).setdefault(n.id, []).append(n)
+        for name, st in list(stores.items()):
+            if name in known or len(st) != 1 or len(loads.get(name, ())) != 1:
+                continue
+            done = _substitute_once(fn, name)
+            count += 1 if done else 0
+    if count:
+        ast.fix_missing_locations(tree)
+    return count
+
+
+def _substitute_once(fn, name):
+    # find the statement list holding `name = expr`
+    for node in ast.walk(fn):
+        for field in ("body", "orelse", "finalbody"):
+            block = getattr(node, field, None)
+            if not isinstance(block, list):
+                continue
+            for i, st in enumerate(block):
+                if isinstance(st, ast.Assign) and len(st.targets) == 1 and isinstance(st.targets[0], ast.Name) and st.targets[0].id == name:
+                    expr = st.value
+                    if not _side_effect_free(expr):
+                        return False
+                    reads = {n.id for n in ast.walk(expr) if isinstance(n, ast.Name)}
+                    attr_reads = any(isinstance(n, (ast.Attribute, ast.Subscript)) for n in ast.walk(expr))
+                    for j in range(i + 1, len(block)):
+                        later = block[j]
+                        uses = [n for n in ast.walk(later) if isinstance(n, ast.Name) and n.id == name and isinstance(n.ctx, ast.Load)]
+                        rebinding = any(isinstance(n, ast.Name) and n.id in reads and isinstance(n.ctx, (ast.Store, ast.Del)) for n in ast.walk(later))
+                        if uses:
+                            # the use must not sit inside a loop or a nested function of `later` (evaluated more than once / later)
+                            if any(isinstance(n, (ast.For, ast.While, ast.FunctionDef, ast.Lambda, ast.ListComp, ast.GeneratorExp, ast.SetComp, ast.DictComp)) and
+                                   any(u is m for m in ast.walk(n) for u in uses) for n in ast.walk(later) if n is not later or isinstance(later, (ast.For, ast.While))):
+                                return False
+                            # anything evaluated before the use inside `later` that could change what expr reads?  keep it simple:
+                            # allow only when `later` is a simple statement or an If/Return whose test/value holds the use
+                            holder = later.test if isinstance(later, (ast.If,)) else getattr(later, "value", None)
+                            if holder is None or not any(u is m for m in ast.walk(holder) for u in uses):
+                                return False
+                            if attr_reads and any(isinstance(n, ast.Call) for n in ast.walk(holder)) and False:
+                                return False
+
+                            class R(ast.NodeTransformer):
+                                def visit_Name(self, n):
+                                    if n is uses[0]:
+                                        return ast.copy_location(copy.deepcopy(expr), n)
+                                    return n
+
+                            if isinstance(later, ast.If):
+                                later.test = R().visit(later.test)
+                            else:
+                                later.value = R().visit(later.value)
+                            del block[i]
+                            if not block:
+                                block.append(ast.Pass())
+                            return True
+                        if rebinding:
+                            return False
+                        if attr_reads and any(isinstance(n, (ast.Call, ast.Assign, ast.AugAssign)) for n in ast.walk(later)):
+                            # attribute/subscript reads may be affected by intervening calls or stores
+                            return False
+                    return False
+    return False
+
+
 def normalise(tree):
     pinned = pinned_functions()
     if pinned is None:
@@ -565,7 +689,11 @@ def normalise(tree):
     inl = Inliner(tree, pinned)
     inl.run()
     n2 = unroll_constant_loops(tree) if inl.inlined else 0
-    return tree, {"inlined": inl.inlined, "kept": inl.kept, "removed": getattr(inl, "removed", []), "unrolled": n1 + n2}
+    af = _AttrFold()
+    af.visit(tree)
+    ast.fix_missing_locations(tree)
+    temps = inline_new_temporaries(tree, pinned_table())
+    return tree, {"inlined": inl.inlined, "kept": inl.kept, "removed": getattr(inl, "removed", []), "unrolled": n1 + n2, "getattr_folded": af.count, "temporaries_inlined": temps}
 
 
 def unroll(tree, model_tables):
